@@ -384,6 +384,9 @@ func genExt(rng *hx.Rng, i int, rs []*tbl.Raw, emit func(op, arg string, rs ...*
 			// the duration grid is made for the first track: keep it the reference track
 			hs[0] = "v"
 		}
+		if len(rel) > 1 && rng.Intn(10) == 0 {
+			mode += ":dup" // the second track carries the first track's ID: refused (C10-F10)
+		}
 		emit("virt", fmt.Sprintf("%d:%d:%d:%d:%d:%d:%d:0:%s:%s:%s", ms, rng.Intn(2), rng.Pick(8, 16), between, pad,
 			rng.Pick(1000, 600, 90000), payLen+uint64(rng.Intn(3)), strings.Join(tss, ","), strings.Join(hs, ","), mode), rel...)
 	}
